@@ -1,4 +1,4 @@
-(* C13: for EVERY situation (all values of every predicate converted_call looks at: 7 077 888
+(* C13: for EVERY situation (all values of every predicate converted_call looks at: 8 257 536
    combinations, enumerated completely) the decision chain generated from the current source of
    api.converted_call takes exactly the action of the documented policy (Spec.doc_action, written
    independently from functions.md / error_handling.md / the property text). *)
